@@ -8,6 +8,8 @@ function's own symbols):
                alpha = (1 + kappa (1 - sqrt(Tr)))^2,  Tr = T / Tc  (every site; literals matched by value to 2e-4 relative)
   C19.mixing   van der Waals one-fluid mixing: b_sum += x_i b_i,  a_ij = sqrt(a_i alpha_i a_j alpha_j) (times the binary
                parameter),  a_aa_sum += x_i x_j a_ij,  a_aa_sum2 += x_j a_ij,  x_i = n_i / n_total
+               ; a_ij is in the scaled state (after `a_aa *= k-factor`) at every accumulation into a_aa_sum and a_aa_sum2, on every
+               path (may-dataflow over the CFG of both overloads): pressure and fugacity coefficients use the same a_ij
   C19.eos      every evaluation of the pressure is  R T/(V - b) - a/(V (V + 2 b) - b^2)  with b2 = b_sum^2, and the cubic in V
                solved for the molar volume is THE SAME equation: (V^3 + r1 V^2 + r2 V + r3) P is identically
                P (V - b)(V^2 + 2 b V - b^2) - R T (V^2 + 2 b V - b^2) + a (V - b)   (a polynomial identity between two pieces
@@ -284,6 +286,37 @@ def one_overload(P, R, f, tag):
     for x in assignments(f, "a_aa_sum2"):
         if x[2] == "+=":
             check("C19.mixing", "a_aa_sum2@%d" % x[1], x, lambda cv: RF.parse("fraction_x@phase_ptr1*a_aa"), "a_aa_sum2 += x_j a_ij")
+    # the pair parameter reaches BOTH sums scaled by (1 - k_ij): may-dataflow of the state of a_aa over the CFG
+    cfg = T.CFG(f)
+
+    def is_a_aa(t):
+        t = T.strip_casts(t)
+        return t[0] == "Ref" and t[3] == "a_aa"
+
+    def transfer(node, st):
+        n = node["n"]
+        if T.is_node(n) and n[0] == "Bin" and n[2] in T.ASSIGN_OPS and is_a_aa(n[3]):
+            if n[2] == "=":
+                return frozenset(["raw"])
+            if n[2] == "*=":
+                return frozenset(["scaled"])          # that the factor is the pair parameter is instance k_ij@ above
+        return st
+    ins = cfg.dataflow(transfer, ["undefined"])
+    for node in cfg.nodes:
+        n = node["n"]
+        if not (T.is_node(n) and n[0] == "Bin" and n[2] == "+=" and any(is_a_aa(y) for y in T.walk(n[4]) if T.is_node(y) and y[0] == "Ref")):
+            continue
+        st = ins.get(node["id"])
+        if st is None:
+            continue
+        inst = tag + "scaled:%s@%d" % (T.text(n[3])[:12].replace(" ", ""), n[1])
+        if st == frozenset(["scaled"]):
+            R.ok("C19.mixing", inst, "a_ij carries the binary interaction parameter when it is accumulated")
+        else:
+            R.violation("C19.mixing", inst, "`%s += ...` accumulates a_ij before (or on a path without) the scaling by the binary interaction parameter (state %s): the mixture a "
+                        "used for the pressure and the per-component sum used for the fugacity coefficient stop describing the same equation of state"
+                        % (T.text(n[3])[:20], "/".join(sorted(st))), line=n[1], **where)
+
     for x in assignments(f, "fraction_x", member=True):
         if T.strip_casts(x[4])[0] == "Lit" and float(str(T.strip_casts(x[4])[3])) == 1.0:
             R.ok("C19.mixing", tag + "x_i@%d" % x[1], "single gas: x = 1")
